@@ -97,9 +97,9 @@ class Run:
         self.add_violation(desc)
 
     def add_violation(self, desc, no_input=False):
-        os.makedirs(os.path.join(C.VERIF, "replays"), exist_ok=True)
+        os.makedirs(os.environ.get("SKV_REPLAY_DIR", os.path.join(C.VERIF, "replays")), exist_ok=True)
         h = hashlib.sha1(json.dumps(desc, sort_keys=True).encode()).hexdigest()[:10]
-        path = os.path.join(C.VERIF, "replays", "%s-%s.json" % (self.prop, h))
+        path = os.path.join(os.environ.get("SKV_REPLAY_DIR", os.path.join(C.VERIF, "replays")), "%s-%s.json" % (self.prop, h))
         json.dump(desc, open(path, "w"), indent=1)
         self.violations.append((path, desc.get("what", ""), no_input))
 
@@ -405,7 +405,7 @@ def main():
     if a.replay:
         return replay(prop, a.replay)
     run = Run(prop, a.tier, seed)
-    ev_path = os.path.join(C.VERIF, "evidence", "%s.json" % prop)
+    ev_path = os.path.join(os.environ.get("SKV_EVIDENCE_DIR", os.path.join(C.VERIF, "evidence")), "%s.json" % prop)
     os.makedirs(os.path.dirname(ev_path), exist_ok=True)
     rc = 0
     coq = {"obligations": 0, "discharged": 0, "theorems": [], "assumptions": ""}
